@@ -117,6 +117,27 @@ def views(src, o, g):
     lm = [l.split()[0] for l in lrows]
     if lm != [n for _, n, _ in raw]:
         out['problems'].append(('listing-mnemonics-differ', len(lm), len(raw)))
+    else:
+        # resolve the listing: a label's address is the address of the next instruction row
+        label_addr = {}
+        k = 0
+        for l in listing:
+            if l.startswith('    ') and l.strip():
+                k += 1
+            elif l.strip().endswith(':'):
+                label_addr[l.strip()[:-1]] = raw[k][0] if k < len(raw) else len(mod.code)
+        for row, (a, n, vals) in zip(lrows, raw):
+            parts = row.split(None, 1)
+            if n in ('jmp', 'jz', 'call', 'errhand') and len(parts) == 2:
+                tgt = parts[1].strip()
+                want = int(tgt) if tgt.lstrip('-').isdigit() else label_addr.get(tgt)
+                if want is None or want != vals[0]:
+                    out['problems'].append(('listing-label-operand-differs-from-binary', a, row, vals[0], want))
+                    break
+            elif n.startswith('push') and n[-1] in '%&' and len(parts) == 2 and n[4:] in ('%', '&'):
+                if int(parts[1]) != vals[0]:
+                    out['problems'].append(('listing-operand-differs-from-binary', a, row, vals[0]))
+                    break
     # structural claims
     sset = set(starts)
     frames = []
@@ -181,6 +202,8 @@ STRESS = [
     '\n'.join(f'l{i}: x = x + {i}' for i in range(40)) + '\nGOTO l39\n',
     'ON ERROR GOTO h\nPRINT 1\nEND\nh: RESUME NEXT\n',
     'ON ERROR RESUME NEXT\nON ERROR GOTO 0\n',
+    'GOTO setup\nPRINT 1\nsetup:\nON ERROR GOTO setup\nGOSUB setup\nPRINT 2\n',
+    '10 ON ERROR GOTO 10\nGOTO 10\nON ERROR GOTO 10\nGOTO 10\n',
     'PRINT 1.5!; 2.5#; 70000; -70000; 32767; -32768\n',
     '\n'.join(f'PRINT "s{i}"' for i in range(300)) + '\n',
     'DIM a(3, 2) AS LONG\na(1, 1) = 5\nSUB p(x AS LONG)\nx = 1\nEND SUB\n',
